@@ -36,8 +36,14 @@ QuietEv == /\ Here /\ Ev.e = "Q"
            /\ q = <<>> /\ srv = <<>> /\ bytes = Ev.bytes /\ drops = Ev.drops /\ nrecv = Ev.nrecv
            /\ UNCHANGED pvars /\ Consume
 SilentStep == (Fetch \/ Begin) /\ Keep
+\* a port without next hop: its departures are not seen at a tap, and the clock has to stop at the end of each
+\* transmission although no event is logged there
+HiddenDepart == Traces[tid].noout = 1 /\ Depart /\ Keep
+HiddenTick == /\ Traces[tid].noout = 1 /\ srv # <<>> /\ started /\ fin > now
+              /\ (More => fin <= Ev.t)
+              /\ TickTo(fin) /\ Keep
 TickEv == More /\ TickTo(Ev.t) /\ Keep
-Next == ArriveEv \/ DepartEv \/ SampleEv \/ QuietEv \/ SilentStep \/ TickEv
+Next == ArriveEv \/ DepartEv \/ SampleEv \/ QuietEv \/ SilentStep \/ HiddenDepart \/ HiddenTick \/ TickEv
 Spec == Init /\ [][Next]_vars
 
 Mark == TLCSet(tid, IF l > TLCGet(tid) THEN l ELSE TLCGet(tid))
